@@ -66,7 +66,7 @@ theorem prov_stable (s s' : State) (l : List PCall) (hl : s'.plog = s.plog ++ l)
 
 theorem unbind_pods (F : Plugin.Facts) (s : State) (pod : Pod) : (unbind F s pod).1.pods = s.pods := by
   unfold unbind
-  dsimp only
+  try dsimp only
   split
   · rfl
   · have u := (unassignAll_quiet (ipsOfKey s (keyOf pod)) s).frame.pods
@@ -87,9 +87,22 @@ theorem deliver_pods (F : Plugin.Facts) (s : State) (i : Nat) : (deliver F s i).
       · exact unbind_pods F _ _
       · exact unbind_pods F _ _
 
+theorem resyncAct_pods (s : State) (ip : IP) (k : Key) (r : Rec) : (resyncAct s ip k r).pods = s.pods := by
+  unfold resyncAct
+  split
+  · have pu := (provUnassign_quiet s r.node ip).frame.pods
+    split
+    · exact pu
+    · have rs := ((reserve_chg _ k k {}).frame.pods).trans pu
+      split
+      · exact ((unbindDp_chg _ _ _).frame.pods).trans rs
+      · exact ((unbindOther_chg _ _ _).frame.pods).trans rs
+  · split
+    · exact (unbindDp_chg _ _ _).frame.pods
+    · exact (unbindOther_chg _ _ _).frame.pods
+
 theorem resyncOne_pods (F : Plugin.Facts) (s : State) (ip : IP) (r0 : Rec) : (resyncOne F s ip r0).pods = s.pods := by
   unfold resyncOne
-  dsimp only
   split
   · rfl
   · rename_i r _
@@ -98,17 +111,10 @@ theorem resyncOne_pods (F : Plugin.Facts) (s : State) (ip : IP) (r0 : Rec) : (re
     · have pr := (podRunning_quiet F s r0.key.pod r0.key.ns r.uid).1.frame.pods
       split
       · exact pr
-      · split
-        · have pu := ((provUnassign_quiet (podRunning F s r0.key.pod r0.key.ns r.uid).1 r.node ip).frame.pods).trans pr
-          split
-          · exact pu
-          · have rs := ((reserve_chg _ r0.key r0.key {}).frame.pods).trans pu
-            split
-            · exact ((unbindDp_chg _ _ _).frame.pods).trans rs
-            · exact ((unbindOther_chg _ _ _).frame.pods).trans rs
-        · split
-          · exact ((unbindDp_chg _ _ _).frame.pods).trans pr
-          · exact ((unbindOther_chg _ _ _).frame.pods).trans pr
+      · have ko := ((keyOwned_quiet F (podRunning F s r0.key.pod r0.key.ns r.uid).1 r0.key r.uid).1.frame.pods).trans pr
+        split
+        · exact ko
+        · exact (resyncAct_pods _ ip r0.key r).trans ko
 
 theorem resyncLoop_pods (F : Plugin.Facts) (snap : Tbl IP Rec) : ∀ (l : List IP) (s : State),
     (resyncLoop F snap s l).pods = s.pods := by
@@ -138,6 +144,19 @@ theorem releasePre_pods (s : State) (node : String) (ip : IP) (k : Key) : (relea
     · exact ((reserve_chg _ k k {}).frame.pods).trans pu
   · rfl
 
+theorem releaseAct_pods (F : Plugin.Facts) (s : State) (ip : IP) (k : Key) (uid : Nat) (node : String) :
+    (releaseAct F s ip k uid node).1.pods = s.pods := by
+  unfold releaseAct
+  have ko := (keyOwned_quiet F s k uid).1.frame.pods
+  split
+  · exact ko
+  · generalize (keyOwnedByRunningPod F s k uid).1 = t at ko ⊢
+    have rp : (releasePre t node ip k).1.pods = s.pods := by rw [releasePre_pods]; exact ko
+    generalize releasePre t node ip k = x at rp ⊢
+    split
+    · rw [(release_chg x.1 k ip).frame.pods]; exact rp
+    · exact rp
+
 theorem apiRelease_pods (F : Plugin.Facts) (s : State) (ip : IP) (k : Key) : (apiRelease F s ip k).1.pods = s.pods := by
   unfold apiRelease
   split
@@ -145,13 +164,7 @@ theorem apiRelease_pods (F : Plugin.Facts) (s : State) (ip : IP) (k : Key) : (ap
   · have pr := (podRunning_quiet F s k.pod k.ns (((Tbl.get s.alloc ip).map (·.uid)).getD 0)).1.frame.pods
     split
     · exact pr
-    · generalize (podRunning F s k.pod k.ns (((Tbl.get s.alloc ip).map (·.uid)).getD 0)).1 = t at pr ⊢
-      generalize ((Tbl.get s.alloc ip).map (·.node)).getD "" = node
-      have rp : (releasePre t node ip k).1.pods = s.pods := by rw [releasePre_pods]; exact pr
-      generalize releasePre t node ip k = x at rp ⊢
-      split
-      · rw [(release_chg x.1 k ip).frame.pods]; exact rp
-      · exact rp
+    · exact (releaseAct_pods F _ ip k _ _).trans pr
 
 theorem filter_pods (s : State) (ns name : String) (nodes : List String) (ch : Choice) :
     (Plugin.filter s ns name nodes ch).1.pods = s.pods := by
